@@ -279,6 +279,22 @@ func runC16(c *Ctx) {
 		allCalls(f, func(call ssa.CallInstruction) {
 			v, ok := call.(ssa.Value)
 			if !ok {
+				// a deferred call hands its results to nobody: `defer w.Flush()` drops the error of the write that empties the buffer
+				if d, isDefer := call.(*ssa.Defer); isDefer {
+					sig := d.Call.Signature()
+					if sig != nil && sig.Results().Len() > 0 && isErr(sig.Results().At(sig.Results().Len()-1).Type()) {
+						name := staticCalleeName(call)
+						if name == "" {
+							name = methodNameOf(call)
+						}
+						// closing an *os.File loses nothing that Write has not reported already (the file is not buffered)
+						if !errorIgnorable(name) && name != "os.(File).Close" && name != "(*os.File).Close" {
+							c.Fail("R16.4", shortFn(f)+": error of the deferred "+name+" reaches the result", call.Pos(),
+								"the call is deferred as it is, so its error result is discarded: a write that fails inside it (the last flush of a buffered writer) leaves a truncated file while success is reported",
+								"a write fault that hits only the final flush (a file-size limit between the last full buffer and the end of the file)")
+						}
+					}
+				}
 				return
 			}
 			var ev ssa.Value
